@@ -301,6 +301,7 @@ package z
 //@   trusted runtime.memclrNoHeapPointers clears exactly len(b) bytes starting at &b[0]
 //@   modifies b[*]
 //@   ensures forall i int :: 0 <= i && i < len(b) ==> b[i] == 0
+//@   ensures forall i int :: len(b) <= i && i < cap(b) ==> b[i] == old(b[i])
 
 //@ func parse(pos uint64) (bufIdx, posIdx int)
 //@   ensures [C12] bufIdx == GcBI(pos) && posIdx == GcPI(pos) && 0 <= bufIdx && bufIdx < 1<<32 && 0 <= posIdx && posIdx < 1<<32
@@ -365,3 +366,24 @@ package z
 //@   panics_if [C12] #toolarge a != nil && (len(buf) > 1<<30 || forall k int :: GcBI(a.compIdx) < k && k < 64 ==> 0 < len(a.buffers[k]) && len(a.buffers[k]) < len(buf))
 //@   modifies a.compIdx, a.buffers[*], a.buffers[*][*]
 //@   ensures [C12] #equal len(result) == len(buf) && forall i int :: 0 <= i && i < len(buf) ==> result[i] == old(buf[i])
+
+//@ func ZeroOut(dst []byte, start, end int)
+//@   requires 0 <= end
+//@   modifies dst[*]
+//@   ensures [C12] #zeroed 0 <= start && start < len(dst) ==> forall i int :: start <= i && i < end && i < len(dst) ==> dst[i] == 0
+//@   ensures [C12] #rest forall i int :: 0 <= i && i < len(dst) && (i < start || i >= end) ==> dst[i] == old(dst[i])
+
+//@ func (a *Allocator) AllocateAligned(sz int) []byte
+//@   requires 0 <= sz && sz <= (1<<30)-7 && a != nil && GcWfChunks(a) && GcWfPos(a)
+//@   panics_if [C12] #toolarge forall k int :: GcBI(a.compIdx) < k && k < 64 ==> 0 < len(a.buffers[k]) && len(a.buffers[k]) < sz+7
+//@   modifies a.compIdx, a.buffers[*], a.buffers[*][*]
+//@   ensures [C12] #exact len(result) == sz
+//@   ensures [C12] #zeroed forall i int :: 0 <= i && i < sz ==> result[i] == 0
+//@   ensures [C12] #wf GcWfChunks(a) && GcWfPos(a)
+
+// What carries the sequential contract of Allocate over to concurrent callers: the
+// region handed out on the fast path is [GcPI(p)-sz, GcPI(p)) of chunk GcBI(p), a
+// function of the ticket p returned by the single atomic add.  Two tickets drawn from
+// the same counter without an intervening store differ by at least the later request
+// (sync/atomic: AddUint64 is a fetch-and-add), so their regions cannot overlap.
+//@ lemma [C12] GcTicketsDisjoint(p1, p2 uint64, sz1, sz2 int): 0 < sz1 && sz1 <= 1<<30 && 0 < sz2 && sz2 <= 1<<30 && p2 >= p1 && p2-p1 >= uint64(sz2) && GcBI(p1) == GcBI(p2) && GcPI(p1) >= sz1 && GcPI(p2) >= sz2 ==> GcPI(p2)-sz2 >= GcPI(p1)
